@@ -135,7 +135,7 @@ class C16(Prop):
     OPS_KEEP = ["getitem", "take_list", "ix", "sum_axis", "mean_tuple", "cumsum", "diff", "transpose", "swapaxes", "newaxis",
                 "squeeze", "flatten", "reshape", "reindex_axis", "reindex_like", "sort_axis", "take_axis", "compress_axis",
                 "dropna", "fillna", "setna", "interp_axis", "repeat", "broadcast", "put_copy", "median", "argmax", "rollaxis",
-                "unflatten"]
+                "unflatten", "flatten_rev", "flatten_apart", "flatten_insert", "mean_tuple_rev", "sum_tuple_last"]
     OPS_DROP = ["add", "mul_scalar", "rsub", "eq", "lt", "neg", "stack", "concatenate", "pow"]
     OPS_AXIS_KEEP = ["axis_slice", "axis_list", "axis_reindex", "axis_take", "axis_sort", "axis_compress", "axis_transpose"]
 
@@ -149,8 +149,11 @@ class C16(Prop):
             for k in keys:
                 vals[k] = rng.choice(["K", 3, 2.5, [1, 2], {"a": 1}, "float32"]) if k != "dtype" else rng.choice(["int32", "K"])
             rank = rng.choice([2, 2, 3])
+            if op in ("flatten_apart", "sum_tuple_last", "mean_tuple_rev"):
+                rank = 3
+            # warm: the axes have been asked for their ordering before (cached state from an earlier alignment / query)
             yield {"op": "propagate", "fn": op, "rank": rank, "attrs": vals, "axis_attrs": {"units": rng.choice(["m", 7]), "calendar": "x"},
-                   "seed": rng.randint(0, 10 ** 6)}
+                   "seed": rng.randint(0, 10 ** 6), "warm": rng.random() < 0.4, "xorder": rng.choice(["shuf", "inc", "dec"])}
 
     def impl(self, c):
         import random
@@ -158,7 +161,8 @@ class C16(Prop):
         rank = c["rank"]
         names = ["x", "y", "z"][:rank]
         sizes = [3, 2, 1][:rank]
-        axes = [Axis(np.array([30, 10, 20][:sizes[0]]), "x")] + [Axis(np.arange(s) * 1.5, n) for n, s in zip(names[1:], sizes[1:])]
+        xl = {"shuf": [30, 10, 20], "inc": [10, 20, 30], "dec": [30, 20, 10]}[c.get("xorder", "shuf")]
+        axes = [Axis(np.array(xl[:sizes[0]]), "x")] + [Axis(np.arange(s) * 1.5, n) for n, s in zip(names[1:], sizes[1:])]
         for ax in axes:
             for k, v in c["axis_attrs"].items():
                 ax.attrs[k] = copy.deepcopy(v)
@@ -175,6 +179,10 @@ class C16(Prop):
                 warnings.simplefilter("ignore")
                 b = DimArray(vals + 1, axes=[ax.copy() for ax in axes])
                 b.attrs["other"] = 1
+                if c.get("warm"):
+                    for ax in a.axes:
+                        ax.is_monotonic()
+                    a + b.take([30], axis="x")
                 r = {
                     "getitem": lambda: a[[10, 30]], "take_list": lambda: a.take([30], axis="x"), "ix": lambda: a.ix[0:2],
                     "sum_axis": lambda: a.sum(axis="x"), "mean_tuple": lambda: a.mean(axis=("x", "y")) if rank > 2 else a.mean(axis="y"),
@@ -185,6 +193,9 @@ class C16(Prop):
                     "newaxis": lambda: a.newaxis("t", pos=1), "squeeze": lambda: a.newaxis("t").squeeze("t"),
                     "flatten": lambda: a.flatten(("x", "y")), "unflatten": lambda: a.flatten(("x", "y")).unflatten(),
                     "reshape": lambda: a.reshape("y,x", *names[2:]),
+                    "flatten_rev": lambda: a.flatten(("y", "x")), "flatten_apart": lambda: a.flatten(("x", "z")),
+                    "flatten_insert": lambda: a.flatten(("x", "y"), insert=rank - 2),
+                    "mean_tuple_rev": lambda: a.mean(axis=("y", "x")), "sum_tuple_last": lambda: a.sum(axis=("y", "z")),
                     "repeat": lambda: a.newaxis("t").repeat(np.array([1, 2]), axis="t"),
                     "broadcast": lambda: a.broadcast([ax for ax in a.axes] + [Axis(np.array([1, 2]), "t")]),
                     "reindex_axis": lambda: a.reindex_axis([10, 15, 30], axis="x"), "reindex_like": lambda: a.reindex_like(b.take([30, 10], axis="x")),
